@@ -84,8 +84,11 @@ func runC19(r *ev.Run) {
 		sc := make([]float32, ln)
 		dup := false
 		seen := map[uint32]bool{}
+		// id magnitudes: small (1..n), starting at 0, straddling a roaring container edge, around 2^31, or ending exactly
+		// at the largest uint32 there is (ids are document keys; nothing says they are small)
+		idOff := []uint32{1, 1, 1, 0, 65534, 1<<31 - 2, math.MaxUint32 - uint32(nIDs) + 1}[rng.IntN(7)]
 		for j := 0; j < ln; j++ {
-			ids[j] = uint32(1 + rng.IntN(nIDs))
+			ids[j] = idOff + uint32(rng.IntN(nIDs))
 			if seen[ids[j]] {
 				dup = true
 			}
